@@ -63,10 +63,52 @@ def has_heap_effects(ex, stmts):
     return False
 
 
+class WriteSet:
+    def __init__(self):
+        self.keys = set()       # whole heap arrays to havoc
+        self.objs = []          # (kind, receiver V, extra) : havoc restricted to one object
+        self.containers = False
+
+
+def _loop_invariant_expr(node, assigned, written_fields):
+    """Receiver expression whose value cannot change inside the loop: a name not assigned in the loop, or
+    a field chain over such a name through fields not stored to in the loop."""
+    if isinstance(node, ast.Name):
+        return node.id not in assigned
+    if isinstance(node, ast.Attribute):
+        return node.attr not in written_fields and _loop_invariant_expr(node.value, assigned, written_fields)
+    return False
+
+
 def heap_write_keys(ex, stmts, st):
-    """Heap keys possibly written by stmts (for havoc). Over-approximate by field name."""
-    keys = set()
+    """Heap locations possibly written by stmts (for havoc). Over-approximate."""
+    ws = WriteSet()
     from .calls import expand_keys
+    assigned = assigned_names(stmts)
+    written_fields = set()
+    for s in stmts:
+        for n in ast.walk(s):
+            if isinstance(n, ast.Attribute) and isinstance(n.ctx, ast.Store):
+                written_fields.add(n.attr)
+
+    def container_write(recv_node, n):
+        if _loop_invariant_expr(recv_node, assigned, written_fields):
+            try:
+                rv = ex.ev(recv_node, st.fork())
+                rv = T.opt_inner(rv)
+                if isinstance(rv.ty, (T.List, T.Dict)):
+                    ws.objs.append(("container", rv, None))
+                    return
+                if isinstance(rv.ty, T.Ref) and REG.classes.get(rv.ty.cls, {}).get("backing"):
+                    fld = REG.classes[rv.ty.cls]["backing"]
+                    fk = REG.field_key(fld, rv.ty.cls)
+                    inner = ex.h.get_field(st, rv.t, fk[0], fk[1])
+                    ws.objs.append(("container", inner, None))
+                    return
+            except Unsupported:
+                pass
+        ws.containers = True
+
     for s in stmts:
         for n in ast.walk(s):
             if isinstance(n, (ast.Assign, ast.AugAssign, ast.AnnAssign)):
@@ -76,39 +118,76 @@ def heap_write_keys(ex, stmts, st):
                         cands = [k for k in REG.fields if k == t.attr or k.endswith("." + t.attr)]
                         if not cands:
                             raise Unsupported(f"store to undeclared field {t.attr} in loop", n)
-                        keys.update(expand_keys(cands))
+                        done = False
+                        if _loop_invariant_expr(t.value, assigned, written_fields):
+                            try:
+                                rv = T.opt_inner(ex.ev(t.value, st.fork()))
+                                if isinstance(rv.ty, T.Ref):
+                                    fk = REG.field_key(t.attr, rv.ty.cls)
+                                    if fk:
+                                        ws.objs.append(("field", rv, fk))
+                                        done = True
+                            except Unsupported:
+                                pass
+                        if not done:
+                            ws.keys.update(expand_keys(cands))
                     elif isinstance(t, ast.Subscript):
-                        keys.add("$containers")
+                        container_write(t.value, n)
             if isinstance(n, ast.Call):
                 txt = ast.unparse(n.func)
                 d = ex.c.calls.get(txt)
                 if d is None and isinstance(n.func, ast.Attribute):
                     d = ex.c.calls.get("*." + n.func.attr)
+                if d is not None and d[0] == "check":
+                    d = d[2] if len(d) > 2 and d[2] else None
                 if d is not None:
                     if d[0] == "contract":
                         cc = REG.contracts.get(d[1])
                         if cc is None:
                             raise Unsupported(f"callee contract {d[1]} not loaded", n)
-                        keys.update(expand_keys(cc.modifies))
+                        ws.keys.update(expand_keys(cc.modifies))
                     elif d[0] == "havoc":
-                        keys.update(expand_keys(d[2] if len(d) > 2 else []))
+                        ws.keys.update(expand_keys(d[2] if len(d) > 2 else []))
                 elif isinstance(n.func, ast.Attribute) and n.func.attr in ("append", "extend", "pop", "remove", "clear"):
-                    keys.add("$containers")
-    return keys
+                    container_write(n.func.value, n)
+    return ws
 
 
-def havoc_heap(ex, st, keys):
+def havoc_heap(ex, st, ws):
     from .calls import _havoc_key
-    for k in keys:
-        if k == "$containers":
-            for hk in list(st.heap.keys()):
-                if hk.startswith("$"):
-                    st.heap[hk] = z3.Const(T.fresh_name("H!" + hk), st.heap[hk].sort())
-            # container arrays not yet materialised must also lose their identity with H0: mark epoch
-            ex.container_epoch = getattr(ex, "container_epoch", 0) + 1
-            st.heap["$epoch"] = z3.IntVal(ex.container_epoch)
+    if ws.containers:
+        for hk in list(st.heap.keys()):
+            if hk.startswith("$"):
+                st.heap[hk] = z3.Const(T.fresh_name("H!" + hk), st.heap[hk].sort())
+        ex.container_epoch = getattr(ex, "container_epoch", 0) + 1
+        raise Unsupported("loop writes to a container that is not loop-invariant (whole-heap havoc not supported)")
+    for k in ws.keys:
+        _havoc_key(ex, st, k)
+    for kind, rv, extra in ws.objs:
+        if kind == "field":
+            key, fty = extra
+            ex.h.set_field(st, rv.t, key, fty, T.fresh(fty, "hv." + key))
         else:
-            _havoc_key(ex, st, k)
+            ty = rv.ty
+            r = rv.t
+            if isinstance(ty, T.List):
+                ex.h.list_set_len(st, r, z3.Int(T.fresh_name("hv.len")))
+                st.pc.append(ex.h.list_len(st, r) >= 0)
+                for k, srt in enumerate(ty.t.sorts()):
+                    key = f"$e:{ty.t.sig()}#{k}"
+                    a = ex.h.arr(st, key, [Obj, z3.IntSort()], srt)
+                    st.heap[key] = z3.Store(a, r, z3.Const(T.fresh_name("hv.elems"), z3.ArraySort(z3.IntSort(), srt)))
+                for k in ty.ghost_sum:
+                    ex.h.list_set_sum(st, ty, r, k, z3.Real(T.fresh_name("hv.sum")))
+            elif isinstance(ty, T.Dict):
+                ks = ex.h._ks(ty)
+                key = f"$dom:{ty.k.sig()}"
+                a = ex.h.arr(st, key, [Obj, ks], z3.BoolSort())
+                st.heap[key] = z3.Store(a, r, z3.Const(T.fresh_name("hv.dom"), z3.ArraySort(ks, z3.BoolSort())))
+                for j, srt in enumerate(ty.v.sorts()):
+                    key = f"$dv:{ty.k.sig()}:{ty.v.sig()}#{j}"
+                    a = ex.h.arr(st, key, [Obj, ks], srt)
+                    st.heap[key] = z3.Store(a, r, z3.Const(T.fresh_name("hv.vals"), z3.ArraySort(ks, srt)))
 
 
 # ---- iteration domain --------------------------------------------------------------
